@@ -177,6 +177,23 @@ theorem sv_resize_contents (v : SV) (n : Nat) (old : List Int) (ha : v.arr = som
     (v.resize n).1.arr = some (old.take (min v.size n) ++ List.replicate (n - min v.size n) 0) := by
   simp [SV.resize, ha, moveInto, createArray]
 
+/-- **Exception neutrality of `resize` / construction:** when an element constructor throws,
+the vector is unchanged, every object constructed so far has been destroyed again, and the
+live objects are still exactly the stored ones. -/
+theorem sv_resize_throw (v : SV) (n k : Nat) (h : v.Ok) (hk : 1 ≤ k ∧ k ≤ n) :
+    (v.resizeThrow n k).1 = v ∧ (v.resizeThrow n k).2.1.1 = (v.resizeThrow n k).2.1.2 ∧
+    (v.resizeThrow n k).2.2 = true ∧ (v.resizeThrow n k).1.Ok := by
+  simp [SV.resizeThrow, createArrayThrows, hk, h]
+
+theorem sv_new_throw (n k : Nat) (hk : 1 ≤ k ∧ k ≤ n) :
+    (SV.newThrow n k).1 = {} ∧ (SV.newThrow n k).2.1.1 = (SV.newThrow n k).2.1.2 ∧ (SV.newThrow n k).1.Ok := by
+  have hn : n > 0 := by omega
+  simp [SV.newThrow, createArrayThrows, hk, hn, SV.Ok, SV.live]
+
+theorem sv_resize_nothrow (v : SV) (n k : Nat) (hk : ¬ (1 ≤ k ∧ k ≤ n)) :
+    (v.resizeThrow n k).1 = (v.resize n).1 ∧ (v.resizeThrow n k).2.2 = false := by
+  simp [SV.resizeThrow, createArrayThrows, hk]
+
 theorem sv_destroy (v : SV) : (v.destroy).1.Ok ∧ (v.destroy).1.live + (v.destroy).2.2 = v.live := by
   simp [SV.destroy, SV.Ok, SV.live]
 
